@@ -362,6 +362,19 @@ func (c02) Eval(c *Chooser, env *Env) *Outcome {
 			ro.ReuseLinter = true
 			ro.PriorRepo = mw.Repos[c.Int("world.priorrepo", len(mw.Repos))].Root
 			desc += ", on a Linter instance that linted repository " + ro.PriorRepo + " before"
+			if _, ok := w.Tools.(*Tools); ok && c.Weighted("world.toolmoves", 1, 2) {
+				// ... and the tools were upgraded meanwhile: their copies in /usr/bin are gone, PATH finds
+				// others. The reference is a fresh Linter in that later environment.
+				ro.ToolMoves = 2
+				r0 = RunLint(w, nil, RunOpts{Canonical: true, ToolMoves: 1})
+				o.addRun(r0.K)
+				if v := runFailure("C02", r0.K); v != nil {
+					o.probe("canonical_run_failed:"+v.Class, 1)
+					return o
+				}
+				desc += ", the tools having moved from /usr/bin to /usr/local/bin after that call"
+				o.probe("tools_moved_between_calls", 1)
+			}
 			if c.Weighted("world.prioroutfail", 1, 3) {
 				// ... while its output could not be written (a closed pipe): that call failed, this one must not care
 				ro.PriorOutFail = 1 + c.Int("world.prioroutfailat", 300)
